@@ -51,6 +51,13 @@ class TcpLink:
         self.log.ev("tcp", *ev)
 
 
+def sever(link):
+    """The service instance the open connections talk to is gone (restarted, replaced): they break;
+    a new connection reaches whatever listens now."""
+    link.generation = getattr(link, "generation", 0) + 1
+    link.tlog("severed")
+
+
 class FakeSock:
     def __init__(self, *a):
         self.link = _LINK
@@ -72,13 +79,15 @@ class FakeSock:
             link.tlog("connect_refused")
             raise ConnectionRefusedError(111, "Connection refused")
         self.connected = True
+        self.gen = getattr(link, "generation", 0)
         link.tlog("open")
         link.device.on_open()
 
     def send(self, data):
         link = self.link
         link._seam()
-        if not self.connected:
+        if not self.connected or getattr(self, "gen", 0) != getattr(link, "generation", 0):
+            # not connected, or connected to a service instance that is gone (link.sever())
             raise BrokenPipeError(32, "Broken pipe")
         self.wbuf += bytes(data)
         if len(self.wbuf) >= 4:
